@@ -1520,7 +1520,7 @@ func ruleC10FiniteBounds(c *Ctx) {
 			if k := core.CalleeKey(&call.Call); k != "math.IsInf" && k != "math.IsNaN" {
 				return
 			}
-			for _, v := range c.floatFieldSources(call.Call.Args[0], 6) {
+			for _, v := range c.floatFieldSources(call.Call.Args[0], 12) {
 				tested[v] = true
 			}
 		})
